@@ -216,9 +216,9 @@ def h_set_groups(ctx, dk, ri, highs):
     a = [0, 63, 17, 32][(ri + dk) % 4]       # the address is not the subject here
     if kind == "group":
         gsel = ctx.fresh("gsel", 0, 15)
-        # the unit is (and must stay) reachable through the group used as destination
+        # the unit is reachable through the group used as destination when the sequence starts; the
+        # request may well remove it from that very group
         ctx.assume(E.bit(cur, gsel))
-        ctx.assume(E.or_(*[E.eq(gsel, i) for i in req]) if req else False)
         dest = A.GearGroup(gsel)
     elif kind == "broadcast":
         dest = A.GearBroadcast()
@@ -265,8 +265,6 @@ def cases(tier):
     cs.append(Case("query-groups", h_query_groups, {"highs": highs}))
     for dk in range(4):
         for ri in range(len(REQUESTS)):
-            if DESTS[dk] == "group" and not REQUESTS[ri]:
-                continue
             cs.append(Case("set-groups-%s-%d" % (DESTS[dk], ri), h_set_groups,
                            {"dk": dk, "ri": ri, "highs": [0x00, 0xFF, 0xA5] if tier == "quick" else
                             [0x00, 0xFF, 0xA5, 0x5A, 0x01, 0x80, 0x3C, 0xC3]}))
@@ -274,8 +272,6 @@ def cases(tier):
     nreq = len(REQUESTS)
     for dk in range(4):
         for ri1, ri2 in ((nreq - 1, 1), (2, nreq - 2), (1, 0)):
-            if DESTS[dk] == "group" and not (REQUESTS[ri1] and REQUESTS[ri2]):
-                continue
             if DESTS[dk] in ("short", "int"):
                 continue        # 768 paths per run: the square is out of reach; blind destinations only
             hs = [0x00, 0xFF, 0xA5]
